@@ -78,3 +78,24 @@ func init() {
 		panic(err)
 	}
 }
+
+// CountConstructed records one constructor call for the token (for constructors
+// that live outside this package, e.g. a harness service's NewProtocol).
+func CountConstructed(tok *onet.Token) {
+	recMu.Lock()
+	Constructed[tok.ID().String()]++
+	recMu.Unlock()
+}
+
+// NilProtoName is the name of a protocol whose constructor returns (nil, nil):
+// neither an instance nor an error.
+const NilProtoName = "VerifNilProto"
+
+func init() {
+	if _, err := onet.GlobalProtocolRegister(NilProtoName, func(n *onet.TreeNodeInstance) (onet.ProtocolInstance, error) {
+		CountConstructed(n.Token())
+		return nil, nil
+	}); err != nil {
+		panic(err)
+	}
+}
